@@ -103,12 +103,17 @@ fn main() {
         "C01" => vpcheck::props::c01::run(&ctx),
         "C02" => vpcheck::props::c02::run(&ctx),
         "C03" => vpcheck::props::c03::run(&ctx),
+        "C04" => vpcheck::props::c04::run(&ctx),
+        "C05" => vpcheck::props::c05::run(&ctx),
         "C06" => vpcheck::props::c06::run(&ctx),
         "C07" => vpcheck::props::c07::run(&ctx),
         "C08" => vpcheck::props::c08::run(&ctx),
         "C10" => vpcheck::props::c10::run(&ctx),
+        "C11" => vpcheck::props::c11::run(&ctx),
         "C09" => vpcheck::props::c09::run(&ctx),
         "C12" => vpcheck::props::c12::run(&ctx),
+        "C13" => vpcheck::props::c13::run(&ctx),
+        "C14" => vpcheck::props::c14::run(&ctx),
         _ => usage(),
     }
     std::process::exit(ctx.finish());
